@@ -147,7 +147,11 @@ class SubsetGroup(HubListener):
         self.subset_state = state
 
     def _add_data(self, data):
-        # add a new data object to group
+        # add a new data object to group, unless the group already has a
+        # subset for it (if callbacks are delayed, the message can arrive after
+        # the group was created with the dataset already in the collection)
+        if any(s.data is data for s in self.subsets):
+            return
         s = GroupedSubset(data, self)
         data.add_subset(s)
         self.subsets.append(s)
